@@ -40,6 +40,36 @@ pub fn to_bool(data: &[u8]) -> bool {
     false
 }
 
+/// Bitwise left shift of a byte string (byte 0 is the most significant), length preserved, zeros shifted in.
+pub fn shift_bytes_left(data: &[u8], bits: usize) -> Vec<u8> {
+    let (byte_shift, bit_shift) = (bits / 8, bits % 8);
+    let mut out = vec![0u8; data.len()];
+    for i in 0..data.len() {
+        let src = i + byte_shift;
+        if src < data.len() {
+            out[i] = data[src] << bit_shift;
+            if bit_shift > 0 && src + 1 < data.len() {
+                out[i] |= data[src + 1] >> (8 - bit_shift);
+            }
+        }
+    }
+    out
+}
+
+/// Bitwise right shift of a byte string (byte 0 is the most significant), length preserved, zeros shifted in.
+pub fn shift_bytes_right(data: &[u8], bits: usize) -> Vec<u8> {
+    let (byte_shift, bit_shift) = (bits / 8, bits % 8);
+    let mut out = vec![0u8; data.len()];
+    for i in byte_shift..data.len() {
+        let src = i - byte_shift;
+        out[i] = data[src] >> bit_shift;
+        if bit_shift > 0 && src > 0 {
+            out[i] |= data[src - 1] << (8 - bit_shift);
+        }
+    }
+    out
+}
+
 impl ScriptStack for Vec<Vec<u8>> {
     fn push_bytes(&mut self, data: Vec<u8>) {
         self.push(data)
